@@ -18,7 +18,9 @@ def run(prop, tier, seed, t0, H, second=None, second_engine=None):
     ob, facts, axioms, built = H.prelude(prop, module, tier)
     failures, coverage, assume = [], {}, ASSUME
     rule = ("seeded multi-client histories on real MDK instances (2..6 clients, memory and SQLite mixed, admin subsets, retention 1..5): rounds of 1..3 concurrent commits "
-            "on one epoch with chosen wrapper timestamps (ties included), messages before and after, both ways of applying one's own commit, per-client shuffled delivery "
+            "on one epoch with chosen wrapper timestamps (ties included) — self-updates, group-data updates (name, description, relays, admin set incl. demotion of a concurrent committer, "
+            "nostr group id rotation), removals of members, a non-admin's crafted Remove — re-wrapped and re-tagged copies, members added between rounds (outsiders joining by welcome), "
+            "messages before and after, both ways of applying one's own commit, per-client shuffled delivery "
             "with duplication and held-back events, restarts, then re-offering everything until nothing changes; non-trivial = contains a competing commit, a rollback, "
             "a duplicate delivery or a restart; distinct by full command trace")
     if built and os.path.exists(C.DRV):
